@@ -29,6 +29,112 @@ def cases(rng, tier):
     return cs
 
 
+# ---------------------------------------------------------------- system level
+import engine
+import gen
+import sysprop as S
+import sysrun
+
+OPENM = S.frame(S.OPEN, S.open_body())
+KAM = S.frame(S.KEEPALIVE)
+
+
+class Damp:
+    """one session ended by some event, then probes: is the peer held down?"""
+    no_model = True
+
+    def __init__(self, sid, direction, state, how, expect_damp):
+        self.sid, self.direction, self.state, self.how, self.expect_damp = sid, direction, state, how, expect_damp
+        self.tag = "damp.%s.%s.%s" % (state, how[0], direction)
+        self.remote_id = 0x0A000002
+
+    def scenario(self):
+        c = "c1"
+        st = [["dial", c]] if self.direction == "in" else [["accept", c, 3000]]
+        st += [["recv", c, 1, 2000]]
+        if self.state in ("openConfirm", "established"):
+            st += [["send", c, OPENM.hex(), 0]]
+        if self.state == "established":
+            st += [["send", c, KAM.hex(), 0]]
+        st += [["sleep", 15]]
+        kind, payload = self.how
+        if kind in ("recv-notif", "send-bad"):
+            st += [["send", c, payload.hex(), 0], ["recv_eof", c, 1000]]
+        elif kind == "fin":
+            st += [["close", c], ["recv_eof", c, 1000], ["fullclose", c]]
+        elif kind == "rst":
+            st += [["reset", c]]
+        st += [["sleep", 80]]
+        # probes during the first part of the hold-down window
+        for k in range(3):
+            st += [["dial", "p%d" % k], ["recv", "p%d" % k, 1, 250], ["fullclose", "p%d" % k], ["sleep", 300]]
+        return {"id": self.sid, "local_as": 65001, "remote_as": 65000, "local_id": 0x0A000001, "hold": 90,
+                "passive": self.direction == "in", "idle_hold_ms": 100, "connect_retry_ms": 400, "caps": [], "on_open": None,
+                "handler": [], "est_writes": [], "steps": st}
+
+    def model_case(self):
+        return None
+
+    def check(self, r):
+        bad = []
+        damps = [e for e in r["events"] if e["kind"] == "m.damp"]
+        t_end = max([c["eof_at"] for c in r["conns"] if c["name"] == "c1" and c["eof"]] + [0])
+        probes = [c for c in r["conns"] if c["name"].startswith("p")]
+        served = [c for c in probes if any(m["t"] == 1 for m in (c["msgs"] or []))]
+        dials_after = [d for d in (r["dials"] or []) if d > t_end + 30] if self.direction == "out" else []
+        if self.expect_damp:
+            if not damps:
+                bad.append("protocol error (%s in %s) did not start a hold-down" % (self.how[0], self.state))
+            elif damps[0]["args"][0] != "60000000000":
+                bad.append("first hold-down is %s ns, expected 60 s" % damps[0]["args"][0])
+            if served:
+                bad.append("inbound connection served (OPEN sent) while the peer must be held down")
+            if dials_after:
+                bad.append("outbound attempt %d ms after the protocol error while the peer must be held down" % (dials_after[0] - t_end))
+        else:
+            if damps:
+                bad.append("%s in %s started a hold-down (must not: Cease / transport fault)" % (self.how[0], self.state))
+            if self.direction == "in" and not served:
+                bad.append("inbound connection not served after a non-damping fault")
+            if self.direction == "out" and not dials_after and not served:
+                bad.append("no new outbound attempt after a non-damping fault")
+        return bad
+
+
+def damp_items(rng, tier):
+    out = []
+    sid = 0
+    for direction in ("in", "out"):
+        for state in ("openSent", "openConfirm", "established"):
+            hows = []
+            for code in (1, 2, 3, 4, 5, 7):
+                hows.append((("recv-notif", S.frame(S.NOTIF, S.notif_body(code, rng.randint(0, 5), gen.rbytes(rng, rng.choice([0, 1, 3]))))), True))
+            hows.append((("recv-notif", S.frame(S.NOTIF, S.notif_body(6, rng.randint(0, 8)))), False))
+            hows.append((("send-bad", S.frame(9)), True))                              # we send (1,3)
+            hows.append((("send-bad", S.frame(2, b"", length=18)), True))               # we send (1,2)
+            unexpected = {"openSent": KAM, "openConfirm": S.frame(S.UPDATE, bytes(4)), "established": OPENM}[state]
+            hows.append((("send-bad", unexpected), True))                              # we send (5,x)
+            if state == "openSent":
+                hows.append((("send-bad", S.frame(S.OPEN, S.open_body(ver=3))), True))  # we send (2,1)
+            hows.append((("fin", None), False))
+            hows.append((("rst", None), False))
+            if tier == "quick":
+                hows = hows[::2] + hows[-2:]
+            for how, damp in hows:
+                out.append(Damp(sid, direction, state, how, damp))
+                sid += 1
+    return out
+
+
+def sys_part(tier, rng, rep, replay):
+    cov = sysrun.run_convs(PID, damp_items(rng, tier), rep, extra_check=lambda c, e, o, r: c.check(r), par=32)
+    cov["rule"] = ("sessions ended at OpenSent/OpenConfirm/Established on either direction by: a received NOTIFICATION of each code "
+                   "1-5,7 or Cease, a malformed/unexpected message answered by corebgp's own NOTIFICATION, TCP FIN, TCP RST; then "
+                   "three inbound probes over 1 s and the DialerControl log: hold-down (60 s, probes refused silently, no dial) "
+                   "exactly for the non-Cease notifications")
+    return cov
+
+
 def main(tier, seed, replay=None):
     import sys
-    return fnprop.run(sys.modules[__name__], tier, seed, replay)
+    return engine.run_property(sys.modules[__name__], tier, seed, replay)
